@@ -232,7 +232,11 @@ func enforce(c *Case) {
 		done := make(chan string)
 		go func() {
 			runtime.LockOSThread()
-			done <- errString(seccomp.LoadFilter(buildFilter(c)))
+			pf := buildFilter(c)
+			if c.PreloadPolicy != nil {
+				pf = seccomp.Filter{NoNewPrivs: true, Policy: *c.PreloadPolicy.Policy()}
+			}
+			done <- errString(seccomp.LoadFilter(pf))
 			select {} // the thread stays alive with its filter
 		}()
 		emit(map[string]any{"ev": "preloaded", "err": <-done})
